@@ -6,7 +6,8 @@
 # Prints one summary line:  SEED <id>-<n> demo_clean=<pass|fail> suite=<ok|broken> demo_patched=<pass|fail> <prop>=<exit code> ...
 id=$1; n=$2; shift 2
 props=${@:-$id}
-wt=/tmp/seed-$id
+wt=${SEED_PREFIX:-/tmp/seed-}$id
+label=$id-$((n + ${SEED_OFFSET:-0}))
 out=$wt/out/$n
 export GOFLAGS=-mod=mod GOPROXY=off GOSUMDB=off
 export GOCACHE=$(go env GOCACHE) GOMODCACHE=$(go env GOMODCACHE) GOPATH=$(go env GOPATH)
@@ -27,13 +28,13 @@ demo() {
   [ $rc -eq 0 ] && echo pass || echo fail
 }
 dc=$(demo clean)
-git apply $out/patch.diff 2>/dev/null || git apply --3way $out/patch.diff 2>/dev/null || { echo "SEED $id-$n patch does not apply to the current HEAD"; git checkout -q -- .; exit 2; }
+git apply $out/patch.diff 2>/dev/null || git apply --3way $out/patch.diff 2>/dev/null || { echo "SEED $label patch does not apply to the current HEAD"; git checkout -q -- .; exit 2; }
 git reset -q 2>/dev/null
 suite=$(dastard-tests $wt 2>&1 | tail -1); [ "$suite" = "PASS-SET OK" ] && suite=ok || suite=broken
 dp=$(demo patched)
-line="SEED $id-$n demo_clean=$dc suite=$suite demo_patched=$dp"
+line="SEED $label demo_clean=$dc suite=$suite demo_patched=$dp"
 for p in $props; do
-  (cd /verif && VERIF_REPO=$wt VERIF_EVIDENCE_DIR=/var/tmp/seed-evidence VERIF_REPLAYS_DIR=/var/tmp/seed-replays/$id-$n bin/vcheck $p --tier quick) > $out/vcheck_$p.log 2>&1
+  (cd /verif && VERIF_REPO=$wt VERIF_EVIDENCE_DIR=/var/tmp/seed-evidence VERIF_REPLAYS_DIR=/var/tmp/seed-replays/$label bin/vcheck $p --tier quick) > $out/vcheck_$p.log 2>&1
   rc=$?
   sig=$(grep -m3 "signature=" $out/vcheck_$p.log | sed 's/.*signature=//' | tr '\n' ';')
   line="$line $p=$rc[$sig]"
